@@ -59,11 +59,12 @@ def flags_of(opts, rules=(), rule_style="opt"):
     if opts.get("del"):
         out.append("--delete")
     for r in rules:
+        pat = r["pat"] + ("/" if r.get("dir") else "")
         if rule_style == "filter":
             out.append("-f")
-            out.append(("+ " if r["inc"] else "- ") + r["pat"])
+            out.append(("+ " if r["inc"] else "- ") + pat)
         else:
-            out.append(("--include=" if r["inc"] else "--exclude=") + r["pat"])
+            out.append(("--include=" if r["inc"] else "--exclude=") + pat)
     return out
 
 
